@@ -1,0 +1,63 @@
+//! Verification hooks. Compiled only with the cargo feature `verif`; with the feature off the
+//! crate is exactly the original one.
+
+use std::sync::RwLock;
+
+type PointHook = Box<dyn Fn(&'static str) + Send + Sync>;
+
+static POINT_HOOK: RwLock<Option<PointHook>> = RwLock::new(None);
+
+/// Install (or remove) the callback invoked at every schedule point.
+pub fn set_point_hook(hook: Option<PointHook>) {
+    *POINT_HOOK.write().unwrap() = hook;
+}
+
+/// A named no-op schedule point. A harness may block the calling thread here.
+pub fn point(name: &'static str) {
+    if let Some(hook) = POINT_HOOK.read().unwrap().as_ref() {
+        hook(name);
+    }
+}
+
+/// One KeyDir entry as seen by [`crate::storage::bitcask::Handle::verif_dump`].
+#[derive(Debug, Clone, PartialEq, Eq, PartialOrd, Ord)]
+pub struct DumpKey {
+    /// The key.
+    pub key: Vec<u8>,
+    /// ID of the file holding the current value.
+    pub fileid: u64,
+    /// Offset of the entry in that file.
+    pub pos: u64,
+    /// Length of the entry.
+    pub len: u64,
+    /// Timestamp of the entry.
+    pub tstamp: i64,
+}
+
+/// Per-file counters as seen by [`crate::storage::bitcask::Handle::verif_dump`].
+#[derive(Debug, Clone, PartialEq, Eq, PartialOrd, Ord)]
+pub struct DumpStat {
+    /// ID of the file.
+    pub fileid: u64,
+    /// Number of live keys.
+    pub live_keys: u64,
+    /// Number of dead keys.
+    pub dead_keys: u64,
+    /// Number of bytes occupied by dead keys.
+    pub dead_bytes: u64,
+}
+
+/// Read-only snapshot of the private index and accounting state.
+#[derive(Debug, Clone, Default)]
+pub struct Dump {
+    /// KeyDir, sorted by key.
+    pub keydir: Vec<DumpKey>,
+    /// Per-file statistics, sorted by file ID.
+    pub stats: Vec<DumpStat>,
+    /// ID of the active file.
+    pub active_fileid: u64,
+    /// Bytes written to the active file.
+    pub written_bytes: u64,
+    /// Number of idle readers in the pool.
+    pub idle_readers: usize,
+}
